@@ -27,7 +27,7 @@ Import ListNotations.
 Open Scope Z_scope.
 
 (* ---- control: `for i in range(a, a+n)` with a state ------------------------------ *)
-Fixpoint for_range {S:Type} (n:nat) (i:Z) (body:Z -> S -> res S) (s:S) : res S :=
+Fixpoint for_range {St:Type} (n:nat) (i:Z) (body:Z -> St -> res St) (s:St) : res St :=
   match n with
   | O => Ok s
   | S n' => do s' <- body i s; for_range n' (i + 1) body s'
